@@ -232,5 +232,68 @@ out = jnp.where(x <= 0.5, stance, swing)
         ok = len(calls) == 1 and calls[0][2] == (("attr", ("param", "next_state"), "gait_phase"), ("attr", self_, "max_foot_height"))
         s.ob("C20.4", "G1Locomotion.reward", ok, "the reward asks for desired_foot_height(next_state.gait_phase, self.max_foot_height)", s.loc("G1Locomotion", "reward"), key="foot-height-args",
              detail="; ".join(show(c, maxlen=160) for c in calls))
-    for r_, n_ in (("C20.1", 19), ("C20.2", 44), ("C20.3", 45), ("C20.4", 2)):
+    check_config_plumbing(s)
+    for r_, n_ in (("C20.1", 19), ("C20.2", 44), ("C20.3", 45), ("C20.4", 2), ("C20.5", 40)):
         s.floor(r_, n_)
+
+
+def check_config_plumbing(s):
+    """C20.5: the configured ranges reach the randomisers. Every constructor parameter of a G1 task that `_init_common` also takes is
+    forwarded under its own name (a keyword that is dropped silently falls back to _init_common's default: the randomisation then
+    ignores the configured range), and `_init_common` stores every parameter that has a like-named attribute from that parameter."""
+    import ast
+    P = s.prog
+    self_ = ("param", "self")
+    ci0, dc0, f0 = s.method("AbstractG1Env", "_init_common")
+    common = [a.arg for a in f0.args.args + f0.args.kwonlyargs if a.arg != "self"]
+    b0 = s.builder(inline=set())
+    loc0 = s.loc("AbstractG1Env", "_init_common")
+
+    def derived_from(v, name):
+        ps = {x[1] for x in walk(v) if isinstance(x, tuple) and x and x[0] == "param"} - {"self"}
+        return name in ps and ps <= {name}
+
+    def is_none_on(path, name):
+        for t, v in path.conds:
+            if isinstance(t, tuple) and t[0] == "cmp" and t[3] == NONE and t[2] == ("param", name) and ((t[1] == "IsNot" and not v) or (t[1] == "Is" and v)):
+                return True
+        return False
+
+    fields_of = {f.name for f in P.dataclass_fields(P.cls("AbstractG1Env"))}
+    for p0 in live(s.paths(b0, "AbstractG1Env", "_init_common")):
+        for name in common:
+            if name not in fields_of and name not in p0.self_attrs:
+                continue
+            v = p0.self_attrs.get(name)
+            none_default = v is not None and is_none_on(p0, name) and not {x for x in walk(v) if isinstance(x, tuple) and x and x[0] == "param"}
+            s.ob("C20.5", f"AbstractG1Env._init_common.{name}", v is not None and (derived_from(v, name) or none_default), f"attribute `{name}` is set from the parameter `{name}` (and nothing else)", loc0,
+                 key=f"stores-{name}", detail=show(v if v is not None else NONE, maxlen=120), necessary_for="randomisation and command sampling use the configured ranges")
+    for cls in ("G1Locomotion", "G1Standing", "G1Standup"):
+        ci, dc, fn = s.method(cls, "__init__")
+        loc = s.loc(cls, "__init__")
+        own = [a.arg for a in fn.args.args + fn.args.kwonlyargs if a.arg != "self"]
+        b = s.builder(inline=set())
+        for p_ in live(s.paths(b, cls, "__init__")):
+            calls = [e[1] for e in p_.effects if isinstance(e[1], tuple) and e[1][0] == "call" and e[1][1] == ("attr", self_, "_init_common")]
+            calls += [c for c in walk(("tuple", tuple(v for v in p_.self_attrs.values() if v is not None))) if isinstance(c, tuple) and c and c[0] == "call" and c[1] == ("attr", self_, "_init_common")]
+            s.ob("C20.5", f"{cls}.__init__", len(calls) >= 1, "the constructor calls self._init_common(...)", loc, key="calls-init-common", detail=str(len(calls)))
+            if not calls:
+                continue
+            m_ = bind_args(f0, calls[0][2], calls[0][3])
+            for name in common:
+                if name not in own:
+                    continue
+                v = m_.get(name)
+                s.ob("C20.5", f"{cls}.__init__.{name}", v is not None and derived_from(v, name), f"constructor argument `{name}` is forwarded to _init_common({name}=...)", loc,
+                     key=f"forwards-{name}", detail="not passed (the default of _init_common applies)" if v is None else show(v, maxlen=120),
+                     necessary_for="friction, friction loss, armature and body masses lie within the CONFIGURED ranges for every task")
+            # task-specific parameters with a like-named attribute
+            for name in own:
+                if name in common:
+                    continue
+                v = p_.self_attrs.get(name)
+                if v is None:
+                    continue
+                none_default = is_none_on(p_, name) and not {x for x in walk(v) if isinstance(x, tuple) and x and x[0] == "param"}
+                s.ob("C20.5", f"{cls}.__init__.{name}", derived_from(v, name) or none_default, f"attribute `{name}` is set from the constructor argument `{name}`", loc, key=f"stores-{name}",
+                     detail=show(v, maxlen=120), necessary_for="command components and gait frequency are sampled from their own configured ranges")
